@@ -219,7 +219,7 @@ def noSpareField : FDef → Bool
   | .int .. | .buf .. => true
   | .spare .. => false
   | .bits _ len little fs =>
-    fs.all (fun b => b.name.isSome && b.val.isNone) && decide (bitsTotal fs = 8 * bitsLen len (bitsOrdered little fs))
+    fs.all (fun b => b.name.isSome) && decide (bitsTotal (bitsOrdered little fs) = 8 * bitsLen len (bitsOrdered little fs))
   | .env _ _ _ _ fs => noSpareFields fs
   | .seq _ _ _ item => noSpareFields item
 def noSpareFields : List FDef → Bool
